@@ -1078,8 +1078,21 @@ func (kcp *KCP) Check() uint32 {
 
 // SetMtu changes MTU size, default is 1400
 func (kcp *KCP) SetMtu(mtu int) int {
-	if mtu <= IKCP_OVERHEAD {
+	if mtu <= IKCP_OVERHEAD || mtu > mtuLimit+IKCP_OVERHEAD {
 		return -1
+	}
+
+	// segments already queued were cut for the old mss and must still fit
+	mss := mtu - IKCP_OVERHEAD
+	for seg := range kcp.snd_queue.ForEach {
+		if len(seg.data) > mss {
+			return -1
+		}
+	}
+	for seg := range kcp.snd_buf.ForEach {
+		if len(seg.data) > mss {
+			return -1
+		}
 	}
 
 	kcp.mtu = uint32(mtu)
